@@ -628,6 +628,10 @@ func (p *c04) Run(i int) (res fw.Result) {
 }
 
 func (p *c04) Rule() string {
+	return p.ruleBase() + " " + "Round 12: the first 50 random cases are long chains - 40, 150, 250, 600 and 1500 operators of one to three operators of the same or of different precedence (-, +, *, **, ~, or/and, // % *, == - b-or, b-and b-xor +, < - is) - whose parenthesised form nests as deep as the chain is long."
+}
+
+func (p *c04) ruleBase() string {
 	return "exhaustive: every chain of k binary operators (all 27, incl. is / is not with a test as right operand) over self-identifying operands for k<=2 (quick) / k<=4 (thorough: 27+729+19683+531441 chains), each in 12 decorations (plain; operands that are not plain names: interpolated strings ending / starting / consisting of an interpolation, calls, filters, subscripts of array and hash literals, string literals; unary -,+,not on the first / second / last operand; not on the first plus - on the last; trailing conditional; a parenthesised conditional as an operand; right-nested conditionals with the chain in the branches; a conditional nested in the true branch; stacked prefix operators (not -, - -, not not, - not, + -) on first, second and last operand; the whole chain, with and without a trailing conditional, inside a subscript / call / filter / method / test argument list / array / hash value / computed hash key / interpolation); operands may also be number literals; every other operand name begins with an operator word (index1, order3, isle5, nota7, andy9 ...); plus seeded random chains of 5..12 operators with random prefixes and conditionals. Oracle: reference precedence climbing over a pinned copy of the operator table yields the fully parenthesised form; the flat and the parenthesised spelling must parse to the same tree (GroupExpr erased) and render identically (output and error kind) under 4 valuations (integers; strings and numbers; booleans and null; floats whose sums depend on the order of addition) (all chains k<=3, every 20th k=4 chain, all random chains). Non-trivial = k>=2; distinct = operator sequence + decoration."
 }
 
